@@ -19,17 +19,17 @@ CHECKS = {
             "gateway and judged by a recognizer written from the statement; exception classes are monitored at both "
             "boundaries.",
             "Lenient integer spellings are an open point (accept-with-int()-value or reject); recognizer is trusted.", "4/C02"),
-    "C03": ("exploration", "exception-class monitor at listen()/read() boundary, probe-after-error, Director schedules", "lockstep",
+    "C03": ("exploration", "exception-class monitor at listen()/read() boundary, probe-after-error, Director schedules, interrupted / slow steps (virtual time)", "lockstep",
             "Observes the class of everything raised by Gateway.listen().__anext__() and StreamTransport.read() over state x "
             "message x payload products, malformed lines, raw byte streams through a real StreamReader, MQTT receive hooks and "
             "under concurrent send() interleavings; a probe line after each error must be processed as the model says.",
             "Recovery after transport-level errors (EOF, over-long line) is not demanded.", "4/C03"),
-    "C04": ("exploration", "lockstep reference model, bounded-exhaustive + random histories", "lockstep",
+    "C04": ("exploration", "lockstep reference model, bounded-exhaustive + random histories, reply-write faults, code-derived dictionary payloads x type tables", "lockstep",
             "Real Gateway and an executable model written from the statements are stepped together; outcome class, ids named "
             "by errors, yielded fields and the whole registry are compared after every step; one persistent listen() iterator "
             "checks exactly-once in-order yields.",
             "Model open points (DESIGN 2.3) follow the implementation; exhaustive only up to the stated length/alphabet.", "4/C04"),
-    "C05": ("exploration", "agreement invariant after every step + release-grid and type-gate sweeps", "lockstep",
+    "C05": ("exploration", "agreement invariant after every step + release-grid, type-gate and code-derived dictionary sweeps", "lockstep",
             "Asserts protocol == newest supported <= major.minor(protocol_version) after every step of every history and "
             "probes the active rules behaviourally with boundary type numbers; independent integer-tuple version map.",
             "Non-release version strings are an open point (reject, or accept consistently).", "4/C05"),
@@ -64,7 +64,7 @@ CHECKS = {
             "written at next wake (after protocol switches, other traffic, a failing flush write) / else violation; non-message "
             "objects must raise InvalidMessageError.",
             "1.x has no wake message: held commands there are only checked for 'not written when sent'.", "4/C12"),
-    "C13": ("exploration", "save/load through real files, structural comparison, legacy-layout translator", "gens",
+    "C13": ("exploration", "save/load through real files, structural comparison, legacy-layout translator, overlapping / queued saves on a deterministic loop", "gens",
             "Registries reached by random message histories and direct construction are saved with the real Persistence to "
             "real files and loaded back (native and legacy layout) and compared attribute by attribute with types.",
             "Legacy equivalence defined for sleeping=False.", "4/C13"),
@@ -77,12 +77,12 @@ CHECKS = {
             "and runs the real load on each crash state; replayer validated against the real final directory on every run; "
             "thorough adds live SIGKILLs. One open known finding (save-truncates-live-file).",
             "Crash model is process death, not power loss; needs ptrace (else inconclusive).", "4/C15"),
-    "C16": ("exploration", "VLoop exit-moment sweep (virtual time, inline executor), cadence run, real-time stress", "sched",
+    "C16": ("exploration", "VLoop exit-moment sweep (virtual time, inline executor), cadence to the second, sessions under new event loops, live traffic on the real thread pool", "sched",
             "Leaves `async with Gateway` after every k loop iterations x fault mode x file state x transport on a deterministic "
             "loop, enumerates connect failures of several exception classes, runs virtual hours for the 15-minute cadence, and "
             "stress-runs real thread-pool contexts over scripted/TCP/serial/MQTT transports with timing-independent oracles.",
             "k sweep covers a range without assuming where the saver is at a given k; cadence bound 900 s + poll interval.", "4/C16"),
-    "C17": ("exploration", "chunked byte streams vs reference splitter; loopback TCP and pty peers; fault positions", "gens",
+    "C17": ("exploration", "chunked byte streams vs reference splitter; loopback TCP and pty peers; fault positions; virtual-time quiet connections; code-derived dictionary and banner lines", "gens",
             "All chunkings of short streams and random streams through a real StreamReader, a loopback server and a pty; "
             "written bytes compared at the peer; refused connect, peer reset, EOF, over-long line, use-before-connect.",
             "Line at exactly the reader limit is either; after EOF/over-long only ordering is demanded.", "4/C17"),
@@ -91,7 +91,7 @@ CHECKS = {
             "messages and errors; scripts of deliveries/errors/reads/disconnect on a fake client where a read that can never "
             "complete is a logical deadlock (deaf); thorough: real aiomqtt+paho against an in-process MQTT 3.1.1 broker.",
             "After a broker error nothing further is demanded; fake client installed via the module attribute seam.", "4/C18"),
-    "C19": ("exploration", "differential lockstep of two real gateways (older version is the reference)", "lockstep",
+    "C19": ("exploration", "differential lockstep of two real gateways (older version is the reference), incl. code-derived dictionary payloads", "lockstep",
             "All 10 ordered version pairs: every type number of the older protocol in 4 states, all 2-step histories over a "
             "34-symbol alphabet, random histories with sends; outcome, writes and registry compared per step with the stated "
             "exclusions and the heartbeat translation.",
